@@ -183,6 +183,9 @@ fn enforcement_case(ctx: &mut Ctx, start: &str, steps: &[Value], validate_nbf: b
         "exp-string" => { p["exp"] = json!("soon"); expect = !v.validate_exp; }
         "nbf-future" => { p["nbf"] = json!(t + lee + 30); expect = !v.validate_nbf; }
         "nbf-within-leeway" => { p["nbf"] = json!(t + lee - 5); applicable = lee > 10; }
+        // NumericDate may carry a fraction (RFC 7519): a token that is not valid yet / has expired stays so
+        "nbf-fraction-future" => { p["nbf"] = json!((t + lee + 30) as f64 + 0.5); expect = !v.validate_nbf; }
+        "exp-fraction-expired" => { p["exp"] = json!((t - lee - 5) as f64 + 0.5); expect = !v.validate_exp; }
         "nbf-missing" => { p.as_object_mut().unwrap().remove("nbf"); expect = !v.validate_nbf && !req("nbf"); }
         "aud-wrong" => { p["aud"] = json!("someone-else"); expect = v.aud.is_none(); }
         "aud-array-disjoint" => { p["aud"] = json!(["x1", "x2"]); expect = v.aud.is_none(); }
@@ -239,7 +242,7 @@ fn enforcement_case(ctx: &mut Ctx, start: &str, steps: &[Value], validate_nbf: b
 }
 
 const VARIANTS: &[&str] = &[
-    "all-satisfied", "iat-future", "iat-odd", "exp-expired", "exp-within-leeway", "exp-missing", "exp-string", "nbf-future", "nbf-within-leeway", "nbf-missing",
+    "all-satisfied", "iat-future", "iat-odd", "exp-expired", "exp-within-leeway", "exp-missing", "exp-string", "nbf-future", "nbf-within-leeway", "nbf-missing", "nbf-fraction-future", "exp-fraction-expired",
     "aud-wrong", "aud-array-disjoint", "aud-array-containing", "aud-missing", "aud-number", "iss-wrong", "iss-missing", "sub-wrong", "sub-missing",
     "required-missing", "other-alg",
 ];
@@ -315,7 +318,7 @@ fn kb_policies(ctx: &mut Ctx) {
 }
 
 pub fn run(ctx: &mut Ctx, replay: Option<&Value>) {
-    ctx.report.rule = "all sequences of builder calls of length <= 3 (quick) / 4 (thorough) over a 17-step alphabet (without_expiry, with_audience x2, with_issuer x2, with_subject x2, with_leeway x2, with_algorithm x2, with_required_claim x6: iss, x, exp, nbf, aud, sub) from default() and new(PS384): frame condition after every step, final record compared field by field with the model; random longer sequences against a reordering that keeps the relative order per setting; for every policy reachable in <= 2 steps (and random longer ones) x validate_nbf in {false,true}: a token satisfying every constraint and tokens violating exactly one (19 variants, margins of 5 s on the side that time moves away from and 30 s on the side it moves towards, around now +- leeway (a stalled run must not turn a token valid or invalid under the check's feet)) through decode / Holder::verify / Verifier::verify, compared with the model's decision; the key-binding policy (algorithm x audience) against key-binding JWTs signed with each RSA algorithm under cnf keys with each `alg` member, through verify_kb and Verifier::verify; non-trivial = distinct sequence of >= 2 steps, or distinct (policy, variant)".to_string();
+    ctx.report.rule = "all sequences of builder calls of length <= 3 (quick) / 4 (thorough) over a 17-step alphabet (without_expiry, with_audience x2, with_issuer x2, with_subject x2, with_leeway x2, with_algorithm x2, with_required_claim x6: iss, x, exp, nbf, aud, sub) from default() and new(PS384): frame condition after every step, final record compared field by field with the model; random longer sequences against a reordering that keeps the relative order per setting; for every policy reachable in <= 2 steps (and random longer ones) x validate_nbf in {false,true}: a token satisfying every constraint and tokens violating exactly one (21 variants, among them a fractional NumericDate that is not yet valid / has expired, margins of 5 s on the side that time moves away from and 30 s on the side it moves towards, around now +- leeway (a stalled run must not turn a token valid or invalid under the check's feet)) through decode / Holder::verify / Verifier::verify, compared with the model's decision; the key-binding policy (algorithm x audience) against key-binding JWTs signed with each RSA algorithm under cnf keys with each `alg` member, through verify_kb and Verifier::verify; non-trivial = distinct sequence of >= 2 steps, or distinct (policy, variant)".to_string();
     if let Some(case) = replay {
         let steps: Vec<Value> = case["steps"].as_array().cloned().unwrap_or_default();
         let start = case["start"].as_str().unwrap_or("default");
